@@ -24,6 +24,13 @@ Direct oracles on the implementation:
       the same extension / stem, in both orders: the section is coloured as when it is alone, and
       as the same hunks under another name of the same kind (same language by the rule "whole
       name, then extension, then default" over syntect's table) in the same place.
+  B11 binary: a file boundary while removed / added lines are still buffered (plain `diff -u` output of
+      several files with nothing between them, the same with `diff …` / `Only in` lines between, git
+      diffs; last hunk ending in -/+ lines; next file of another / the same language / unknown name):
+      the section is coloured as when it is alone (what the next file's `--- ` line flushes is painted
+      in the language of the file the lines belong to), and as the same hunks under another name of the
+      same kind in the same place. Signatures `language:<flavour>:buffered-lines-coloured-by-next-file`,
+      `…:section-colouring-depends-on-other-files`, `…:rename-same-kind-changes-colouring`.
 """
 import base64
 import os
@@ -2173,8 +2180,15 @@ def run(ctx, rep):
                 "table such as CMakeLists.txt / Cargo.lock / resolv.conf, extension-less names equal to an "
                 "extension, shared stems; pairs computed from syntect's table, both orders, 1-3 neighbours, "
                 "polyglot hunk lines): section alone vs after the others, and vs a same-kind name in the same "
-                "place; non-trivial = the two languages colour the hunks differently. Distinct by "
-                "request / (diff hash, args).")
+                "place; non-trivial = the two languages colour the hunks differently. File boundaries with "
+                "lines still buffered: streams of 2-4 file sections (plain `diff -u` output with nothing between "
+                "the files, the same with `diff -u a b` / `diff -ru` / `Only in` lines between, git diffs) in which "
+                "the target's last hunk ends with removed+added / added / removed lines (controls: a context line, "
+                "a `\\ No newline` marker), the next file of another language / the same language / an unknown "
+                "name, 0-1 preceding and 1-2 following sections, every (flavour, follower, ending) combination "
+                "first: the target's section alone vs inside the stream, and vs the same hunks under another "
+                "name of the same kind inside the stream; non-trivial = changed lines are buffered at the "
+                "boundary and the next file has another language. Distinct by request / (diff hash, args).")
     rep.extra_trusted += [
         "syntect: highlight_line returns sections that partition the line (checked on the sampled lines, not proved)",
         "syntect/bat assets: which colours a theme assigns; find_syntax_by_extension; ansi_colours::ansi256_from_rgb",
